@@ -154,6 +154,17 @@ def routes(pendulum, z, inst):
     return out
 
 
+def kf_week_model(z, recv, which, ws, status, res):
+    """The week finding applies only if the receiver is in the anomalous class AND the observation is exactly what the
+    day-walking composition (navmodel) produces for it."""
+    if not kf_week_anomaly(z, recv, which, ws):
+        return False
+    from . import navmodel
+    seen = ("ok", obs.fields(res), obs.offset_s(res)) if status == "ok" and res is not None else (status,)
+    model = navmodel.emulate(z, obs.fields(recv), recv.fold, f"{which}_of_week", ws=ws, we=(ws + 6) % 7)
+    return model == seen
+
+
 def _apply(x, which, unit):
     worker.horizon(0.5)
     try:
@@ -184,14 +195,14 @@ def check_state(acc, pendulum, z, inst, units=UNITS, ws=0):
                 acc.c["evaluations"] += 1
                 acc.c["transitions"] += 1
 
-                def kf_of(recv, res):
+                def kf_of(recv, res, st="ok"):
                     # evaluated lazily: only when something is wrong
                     if unit == "week":
-                        return "C12-week-day-anomaly" if kf_week_anomaly(z, recv, which, ws) else None
+                        return "C12-week-day-anomaly" if kf_week_model(z, recv, which, ws, st, res) else None
                     return "C12-boundary-anomaly" if kf_boundary(z, recv, unit, which, res, ws) else None
 
                 if status != "ok":
-                    acc.mismatch(sub, f"{unit}/{status}", case, status, "a value", kf=kf_of(x, None))
+                    acc.mismatch(sub, f"{unit}/{status}", case, status, "a value", kf=kf_of(x, None, status))
                     results.append((x, None))
                     if status == "HANG":
                         acc.c["routes_skipped_after_hang"] += 1
@@ -225,7 +236,7 @@ def check_state(acc, pendulum, z, inst, units=UNITS, ws=0):
                 s2, r2 = _apply(r, which, unit)
                 acc.c["transitions"] += 1
                 if s2 != "ok" or obs.obs_key(r2) != obs.obs_key(r):
-                    kf2 = kf_of(x, r) or (kf_of(r, r2) if s2 == "ok" or unit == "week" else None)
+                    kf2 = kf_of(x, r) or (kf_of(r, r2, s2) if s2 == "ok" or unit == "week" else None)
                     acc.mismatch(sub, f"{unit}/not-idempotent", case,
                                  s2 if s2 != "ok" else obs.obs_key(r2), obs.obs_key(r), kf=kf2)
                 results.append((x, r))
@@ -234,7 +245,8 @@ def check_state(acc, pendulum, z, inst, units=UNITS, ws=0):
             if len(vals) > 1 or (vals and any(r is None for _, r in results)):
                 kf = None
                 if unit == "week":
-                    if any(kf_week_anomaly(z, x, which, ws) for x, _ in results):
+                    if all((kf_week_model(z, x, which, ws, "ok", r) if r is not None else kf_week_anomaly(z, x, which, ws))
+                           for x, r in results):
                         kf = "C12-week-day-anomaly"
                 elif all(r is not None and kf_boundary(z, x, unit, which, r, ws) for x, r in results):
                     kf = "C12-boundary-anomaly"    # every route's result is the model's value for its own fold
